@@ -474,8 +474,14 @@ def concrete_grid(ctx: Ctx) -> Any:
     s3 = T.struct("S3 {delimited Inner[<=3] ds; uint8 tail; delimited Inner one; U u}", [("ds", T.varr(d, 3)), ("tail", u8t), ("one", d), ("u", un)])
     ds3 = T.delimited(s3, 8 * 64)
     fl = T.struct("F {float16 h; bool k; float64 d; float32 s; float16 h2}", [("h", f16), ("k", b1), ("d", f64), ("s", f32), ("h2", f16)])
+    # wide integers at every bit offset within a byte (a reader that assembles a field from a machine word must not lose
+    # the bits that do not fit next to the offset)
+    wide = T.struct("W {bool k; int64 v; uint64 w; uint3 g; uint61 x; int59 y; uint57 z; uint6 h; int58 t}", [("k", b1), ("v", T.sint(64)), ("w", T.uint(64)), ("g", u3), ("x", T.uint(61)), ("y", T.sint(59)), ("z", T.uint(57)), ("h", T.uint(6)), ("t", T.sint(58))])
     I = lambda p, q: {"p": p, "q": list(q)}  # noqa: E731
     grid = [
+        (wide, [{"k": True, "v": -1, "w": 2**64 - 1, "g": 7, "x": 2**61 - 1, "y": -(2**58), "z": 2**57 - 1, "h": 63, "t": -1},
+                {"k": False, "v": -(2**63), "w": 2**63, "g": 0, "x": 2**60, "y": 2**58 - 1, "z": 2**56, "h": 0, "t": -(2**57)},
+                {"k": True, "v": 0x0123456789ABCDEF, "w": 0xFEDCBA9876543210, "g": 5, "x": 0x1BCDEF0123456789, "y": 0x0123456789ABCDE, "z": 0x123456789ABCDE, "h": 42, "t": 0x123456789ABCDE}]),
         (s1, [{"a": 5, "b": 0x1234, "c": [7, 9], "d": True, "e": 1.5, "f": -3}, {"a": 0, "b": 0, "c": [], "d": False, "e": 0.0, "f": 0},
               {"a": 7 + 8, "b": 70000, "c": [255], "d": True, "e": -0.375, "f": -64}, {"a": 2, "b": -4, "c": [1, 2], "d": False, "e": 1024.0, "f": 100}]),
         (s2, [{"xs": [I(1, [2]), I(3, [])], "ys": [], "z": 1}, {"xs": [I(255, [1, 2, 3]), I(0, [9])], "ys": [I(4, [5, 6]), I(7, [])], "z": 7}]),
